@@ -310,6 +310,31 @@ ItemCases(f) ==
         [j \in 1..Len(ItemPositions) |->
             Case(f, v, "item", ds[i], ItemPositions[j], "-", FileWithItem(v, ItemPositions[j], ds[i].t))]])
 
+(* parameter lists: a sub with every list of int / float parameters up to length 6, in every old-ECL game (each
+   has its own calling convention and its own limit per type) and in modern ECL; the sub is also called *)
+RECURSIVE TySeqs(_)
+TySeqs(n) == IF n = 0 THEN {<<>>} ELSE {Append(ts, t) : ts \in TySeqs(n - 1), t \in {"int", "float"}}
+ParamLists == SetToSeq(UNION {TySeqs(n) : n \in 0..6})
+RECURSIVE ParamToks(_, _), ArgToks(_, _), SigName(_, _)
+ParamToks(ts, i) == IF i > Len(ts) THEN <<>>
+                    ELSE (IF i > 1 THEN <<",">> ELSE <<>>) \o <<ts[i], "pa" \o ToString(i)>> \o ParamToks(ts, i + 1)
+ArgToks(ts, i) == IF i > Len(ts) THEN <<>>
+                  ELSE (IF i > 1 THEN <<",">> ELSE <<>>) \o <<IF ts[i] = "int" THEN "1" ELSE "1.5">> \o ArgToks(ts, i + 1)
+SigName(ts, i) == IF i > Len(ts) THEN "" ELSE (IF ts[i] = "int" THEN "i" ELSE "f") \o SigName(ts, i + 1)
+ParamDefect(ts) ==
+    [n |-> "params:" \o SigName(ts, 1),
+     t |-> <<"void", "fpl", "(">> \o ParamToks(ts, 1) \o <<")", "{", "}",
+             "void", "fpc", "(", ")", "{", "fpl", "(">> \o ArgToks(ts, 1) \o <<")", ";", "}">>]
+EclGames == <<"th06", "th07", "th08", "th09", "th095">>
+ModernEclVoc == [tool |-> "truecl", game |-> "th10", head |-> <<>>, open |-> <<"void", "main", "(", ")", "{">>, close |-> <<"}">>,
+                 V |-> "$REG[-9985]", W |-> "$REG[-9984]", F |-> "%REG[-9981]", call0 |-> "ins_10", call1 |-> "ins_23",
+                 item2 |-> <<"void", "main", "(", ")", "{", "}">>]
+ParamListCases ==
+    FlattenSeq([g \in 1..(Len(EclGames) + 1) |->
+        LET v == IF g <= Len(EclGames) THEN [Voc("ecl") EXCEPT !.game = EclGames[g]] ELSE ModernEclVoc IN
+        [i \in 1..Len(ParamLists) |->
+            Case("ecl", v, "item", ParamDefect(ParamLists[i]), "last", "-", FileWithItem(v, "last", ParamDefect(ParamLists[i]).t))]])
+
 (* mission.msg: only `entry' metas and consts; the expression defects go into meta fields *)
 MissionVoc == [tool |-> "trumsg-mission", game |-> "th095", V |-> "$REG[0]", W |-> "$REG[1]", F |-> "%REG[2]",
                call0 |-> "ins_0", call1 |-> "ins_1", item2 |-> <<"script", "s0", "{", "}">>,
@@ -553,7 +578,7 @@ AllCases ==
         LET f == ScriptFormats[i] IN
         EveryKth(StmtCases(f), Stride(f, "stmt")) \o EveryKth(ExprCases(f), Stride(f, "expr"))
         \o EveryKth(ItemCases(f), Stride(f, "item"))])
-    \o MissionCases \o TemplateCases \o MapCases
+    \o MissionCases \o TemplateCases \o MapCases \o EveryKth(ParamListCases, IF Quick THEN 1 ELSE 1)
 
 \* built once, parked in a register (see BUILDING.md: definitions are re-evaluated at every use)
 ASSUME TLCSet(63, <<>> \o AllCases)
